@@ -111,8 +111,9 @@ theorem readAbridged_enc (p rest : Bytes) (hmax : p.length ≤ 16777216) (h4 : p
     have hi : ((p.length / 4 : Nat) : Int) * 4 = ((p.length : Nat) : Int) := by omega
     rw [hi, make_nat, hs2, alloc_out, readN_append p rest _ _ rfl]
     rfl
+  have hidx : ∀ r : Res, Res.index 4 0 r = r := fun r => by simp [Res.index]
   unfold readAbridged abridgedHead
-  simp only [spec_abrWords, spec_abrShort, spec_abrMark, spec_abrLong]
+  simp only [spec_abrWords, spec_abrShort, spec_abrMark, spec_abrLong, hidx]
   by_cases hs : p.length / 4 < 127
   · simp only [hs, decide_true, if_true, alloc_out]
     rw [List.append_assoc, readN_append [UInt8.ofNat (p.length / 4)] (p ++ rest) 1 _ rfl]
